@@ -57,6 +57,25 @@ def freeze(obj, depth=0):
     return ('obj', id(obj))
 
 
+def safe_copy(obj, depth=0):
+    "Deep copy of dicts/lists/tuples/sets; anything else (callables, iterators, ...) by reference"
+    if depth > 12:
+        return obj
+    if isinstance(obj, dict):
+        return {k: safe_copy(v, depth + 1) for k, v in obj.items()}
+    if isinstance(obj, list):
+        return [safe_copy(v, depth + 1) for v in obj]
+    if isinstance(obj, tuple):
+        return tuple(safe_copy(v, depth + 1) for v in obj)
+    if isinstance(obj, (set, frozenset)):
+        return type(obj)(obj)
+    return obj
+
+
+class Unmodellable(Exception):
+    "A built-in layer is not a plain dict any more: the reference model does not apply"
+
+
 def diff_keys(a, b):
     "Top-level keys on which two dicts differ (for messages)"
     if not isinstance(a, dict) or not isinstance(b, dict):
@@ -78,7 +97,7 @@ class Monitor:
             if m is None or not hasattr(m, name):
                 continue   # a refactor may move tables; what exists is watched
             obj = getattr(m, name)
-            self.pristine[(mod, name)] = copy.deepcopy(obj)
+            self.pristine[(mod, name)] = safe_copy(obj)
             self.frozen[(mod, name)] = freeze(obj)
         self.before = None
         self.cells = set()
@@ -101,11 +120,17 @@ class Monitor:
             res = {}
             win = {}
             base = self.P('DEFAULT_CONFIG').get(key, {})
+            if not isinstance(base, dict):
+                raise Unmodellable(key)
             res.update(base)
             for k in base:
                 win[k] = 'built-in'
             for lname, layer in layers:
+                if not isinstance(layer, dict):
+                    raise Unmodellable(lname)
                 if key in layer:
+                    if not isinstance(layer[key], dict):
+                        raise Unmodellable('%s.%s' % (lname, key))
                     res.update(layer[key])
                     for k in layer[key]:
                         win[k] = lname
@@ -168,7 +193,10 @@ class Monitor:
 
     # -- hooks called by the runner -------------------------------------------------------------
     def flat_config(self, user, glob):
-        t, s, merged, winner = self.model(user, glob)
+        try:
+            t, s, merged, winner = self.model(user, glob)
+        except Unmodellable:
+            return None, None, None
         flat = {}
         for k, v in user.items():
             if k not in SECTIONS and k != 'cache':
@@ -188,7 +216,8 @@ class Monitor:
             known = self.held.get(cid)
             if known is None or known[0] is not h.instance:
                 t, s, flat = self.flat_config(h.user, host.global_of(h.spec))
-                self.held[cid] = (h.instance, flat, t, s)
+                if flat is not None:
+                    self.held[cid] = (h.instance, flat, t, s)
 
     def after_op(self, i, op):
         self.note_held()
@@ -211,7 +240,11 @@ class Monitor:
             run.violate('C20', 'precedence', 'config-construction-raised', i, {'op': op, 'error': describe_exception(err)})
             return
         self.check_caller(i, op, h, before, allow_text=False)
-        t, s, merged, winner = self.model(h.user, glob)
+        try:
+            t, s, merged, winner = self.model(h.user, glob)
+        except Unmodellable:
+            run.count('c20:built-in-layer-not-a-dict(model not applicable)')
+            return
         self.note_cells(h.user, glob, t, s)
         run.count('c20:configs-resolved')
         if getattr(cfg, 'type', None) != t or getattr(cfg, 'syntax', None) != s:
@@ -231,6 +264,22 @@ class Monitor:
                     'got': repr(got.get(k0, '<absent>'))[:200] if isinstance(got, dict) else repr(got)[:200],
                     'user-layer': repr((h.user.get(key) or {}))[:300], 'global': repr(glob)[:600]})
                 return
+        if op.get('poke'):
+            # the host writes into ITS resolved Config (as the repository's own tests do with
+            # `config.options[...] = ...`): top-level assignments only. Merging must have given it
+            # fresh dicts, so neither the built-in tables nor the caller's layers may change.
+            before2 = self.snapshot_caller(h)
+            try:
+                cfg.options['output.indent'] = '<poked>'
+                cfg.options['poked.flag'] = True
+                cfg.snippets['pokedsnippet'] = 'div.poked'
+                cfg.snippets['a'] = 'a.poked'
+                cfg.variables['lang'] = 'poked'
+                cfg.variables['pokedvar'] = 'poked'
+            except Exception:  # noqa -- a read-only view would be fine too
+                pass
+            run.count('c20:resolved-configs-written-to-by-the-host')
+            self.check_caller(i, dict(op, note='after the host assigned into the resolved Config'), h, before2, allow_text=False)
 
     def before_call(self, i, op):
         h = self.run.host.cfgs[op['cfg']]
@@ -265,6 +314,9 @@ class Monitor:
             run.count('c20:held-Config-compared-with-flattened-config')
         else:
             t, s, flat = self.flat_config(user, glob)
+            if flat is None:
+                run.count('c20:built-in-layer-not-a-dict(model not applicable)')
+                return
             self.note_cells(user, glob, t, s)
         random.seed(op.get('pin', 0))
         try:
